@@ -106,8 +106,11 @@ def features(toks):
     return '+'.join(sorted(set(f))) or 'none'
 
 
-def check_tokens(toks, sp, fails, oc, src):
+def check_tokens(toks, sp, fails, oc, src, lower=False):
     text, exp, tree, _ = judge_tokens(toks, sp)
+    if lower and text is not None:
+        # letter case is insignificant: same verdict and same (upper-cased) export as the upper-case text
+        text = text.lower()
     if exp == 'SKIP':
         oc['skip:lexical-merge'] = oc.get('skip:lexical-merge', 0) + 1
         return 0
@@ -123,7 +126,7 @@ def check_tokens(toks, sp, fails, oc, src):
     elif exp == 'VALID' and st == 'VALID':
         got = b[-1].get_expr
         e1, e2 = G.full(tree), G.full(G.normalise(tree))
-        if got not in (e1, e2):
+        if (got.upper() not in (e1.upper(), e2.upper())) if lower else (got not in (e1, e2)):
             fails.append(Fail('misread', got=got, exp=e1, text='=' + text, src=src, feat=features(toks), signrun=G.has_sign_run(text)))
     return 1
 
@@ -133,8 +136,9 @@ def run_soup(case):
     install_probe()
     fails, oc, n = [], {}, 0
     head = [TOK[i]] if L == 1 else [TOK[i], TOK[j]]
+    lower = sp == 'lower'
     for rest in itertools.product(TOK, repeat=max(L - 2, 0)):
-        n += check_tokens(head + list(rest), sp, fails, oc, 'soup')
+        n += check_tokens(head + list(rest), '' if lower else sp, fails, oc, 'soup-lower' if lower else 'soup', lower=lower)
     return result(n, ['%s' % k for k in oc], fails)
 
 
@@ -151,6 +155,10 @@ def soup_cases(tier):
                 for i in range(16):
                     for j in range(16):
                         yield ['soup', L, i, j, sp]
+    for L in range(1, 5):           # the same sequences in lower case
+        for i in range(16):
+            for j in (range(16) if L > 1 else [0]):
+                yield ['soup', L, i, j, 'lower']
 
 
 def run_raw(case):
@@ -286,6 +294,32 @@ def run_num(case):
     return result(n, list(oc), fails)
 
 
+# ---- reference forms beyond A1: spill anchors, INDIRECT, sheet-qualified errors, in every letter case
+SPECIAL = ['A1#', 'ANCHORARRAY(A1)', 'ANCHORARRAY(A1:B2)', '_xlfn.ANCHORARRAY(A1)', 'ANCHORARRAY(S!A1)', 'INDIRECT("A1")', 'INDIRECT("A1:B2")', 'INDIRECT("")',
+           'S!#REF!', "'My S'!#REF!", '#REF!#', 'A1:B2#', 'A:A#', '1:1#', 'S!A1#', 'R[1]C[1]#', 'R1C1#', 'ANCHORARRAY()', 'ANCHORARRAY(1)', 'A1##', '#N/A#',
+           '#NULL!', '#DIV/0!', '#VALUE!', '#NUM!', '#NAME?', '#GETTING_DATA', '#SPILL!', '#CALC!', '#FIELD!', '#N/A!', '#n/a', '#Ref!']
+
+
+def special_cases(tier):
+    for i in range(len(SPECIAL)):
+        yield ['special', i]
+
+
+def run_special(case):
+    _, i = case
+    install_probe()
+    fails, oc, n = [], {}, 0
+    for tpl in ('%s', '%s+1', 'F(%s)', '-%s', '(%s)', '{%s}', 'F(1,%s,)', '%s%%', '1+%s*2', '%s %s', '%s:%s', '(%s,%s)'):
+        for t in (SPECIAL[i], SPECIAL[i].lower(), SPECIAL[i].swapcase()):
+            text = '=' + tpl.replace('%s', t).replace('%%', '%')
+            st, b = parse(text)
+            n += 1
+            oc[st] = oc.get(st, 0) + 1
+            if st.startswith('ESC'):
+                fails.append(Fail('escape', got=st, exp='FormulaError or a formula', text=text, src='special', feat=SPECIAL[i]))
+    return result(n, list(oc), fails)
+
+
 # ---- juxtaposition: two complete operands side by side inside every context
 UNITS = [['1'], ['"s"'], ['A1'], ['TRUE'], ['#N/A'], ['(', '1', ')'], ['(', 'A1', ')'], ['F(', '1', ')'], ['F(', ')'], ['{', '1', '}'], ['1', '%'],
          ['(', '-', '1', ')'], ['{', '1', ',', '1', '}'], ['(', '1', '+', '1', ')']]
@@ -313,7 +347,7 @@ def run_juxta(case):
 
 
 def run_case(case):
-    return {'soup': run_soup, 'raw': run_raw, 'edit': run_edit, 'num': run_num, 'juxta': run_juxta}[case[0]](case)
+    return {'soup': run_soup, 'raw': run_raw, 'edit': run_edit, 'num': run_num, 'juxta': run_juxta, 'special': run_special}[case[0]](case)
 
 
 def run(ctx):
@@ -322,4 +356,5 @@ def run(ctx):
     ctx.explore(run_case, edit_cases(ctx.tier), chunksize=4, label='edited_formulas')
     ctx.explore(run_case, numeral_cases(ctx.tier), chunksize=2, label='numeral_chunks')
     ctx.explore(run_case, juxta_cases(ctx.tier), chunksize=1, label='juxtaposed_operands')
+    ctx.explore(run_case, special_cases(ctx.tier), chunksize=1, label='special_reference_and_error_tokens')
     return {'strings_parsed': ctx.transitions}
